@@ -5,7 +5,7 @@ produced for a caller without `c`, cannot be supplied by such a caller in strict
 for callers holding `c`; redaction replaces the clear text of every redacted field.
 -/
 namespace StoneVerif.C13
-open StoneVerif.Rt
+open StoneVerif.Rt StoneVerif.Rt.PermL
 
 /-! ### Tiny concrete data for the non-vacuity examples -/
 namespace Ex
